@@ -1,6 +1,7 @@
 package regexp2
 
 import (
+	"strconv"
 	"unicode"
 
 	"github.com/dlclark/regexp2/v2/syntax"
@@ -517,6 +518,30 @@ func VerifCheck_groups() {
 		verifAssert("GroupByName-unknown", m.GroupByName("nosuchgroup") == nil)
 	} else {
 		verifReach("nomatch")
+	}
+	// $n, ${n} and ${name} in a replacement designate the same group
+	if n <= 1 || len(nums) <= 4 {
+		s := string(t)
+		for i := 1; i < len(nums); i++ {
+			ns := strconv.Itoa(nums[i])
+			a, err := re.Replace(s, "<${"+ns+"}>", -1, -1)
+			if err != nil {
+				verifFail("error-replace", err.Error())
+			}
+			b, err := re.Replace(s, "<$"+ns+">", -1, -1)
+			if err != nil {
+				verifFail("error-replace", err.Error())
+			}
+			verifAssert("replacement-$n==${n}", a == b)
+			if names[i] != "" && names[i] != ns {
+				c, err := re.Replace(s, "<${"+names[i]+"}>", -1, -1)
+				if err != nil {
+					verifFail("error-replace", err.Error())
+				}
+				verifAssert("replacement-${name}==${n}", a == c)
+			}
+		}
+		verifReach("replacement-leg")
 	}
 	if len(verifREs) > 1 {
 		a, err := verifREs[1].FindRunesMatch(t)
